@@ -114,7 +114,7 @@ def check_sample(s, r3="C06.3", r4="C06.4"):
     # ------------------------------------------------------------------ sample
     con3 = "ReplayBuffer.sample"
     loc3 = s.loc("ReplayBuffer", "sample")
-    b3 = s.builder(inline={"current_size"})
+    b3 = s.builder(inline={"current_size", "shape"})
     nz3 = Normalizer(b3)
     cases = set()
     for p in live(s.paths(b3, "ReplayBuffer", "sample")):
